@@ -8,6 +8,7 @@ from pathlib import Path
 from typing import Dict, List, Optional, Set, Tuple
 
 from ..core import AnalysisError, RuleSpec
+from . import common
 from ..pymodel import call_name
 from .. import astq
 from . import c09
@@ -465,6 +466,14 @@ def r8_found_items_have_urls(ctx, rep):
                               f"'Found item ... but no url', aborting the run", py.nloc(gu), nontrivial=how not in ("own page",))
 
 
+
+def r9_memo(ctx, rep):
+    """shared with C17.R7: cached link elements must be keyed by the converter state they depend on"""
+    n = common.memo_soundness(ctx, rep, modules=("_markdown",))
+    if n == 0:
+        rep.ob("no cache in the Markdown layer", True, "links are computed per conversion", "ford/_markdown.py", nontrivial=False)
+
+
 RULES = [
     RuleSpec("C11.R6", r6_item_anchors, "[[owner:item]] targets: item anchors exist on the owner's page (shared with C09.R8)", floor=16),
     RuleSpec("C11.R1", r1_kinds, "documented kinds are the implemented kinds", floor=45),
@@ -474,4 +483,5 @@ RULES = [
     RuleSpec("C11.R5", r5_link_syntax, "reference syntax", floor=4),
     RuleSpec("C11.R8", r8_found_items_have_urls, "every entity find_child can hand out has a URL", floor=30),
     RuleSpec("C11.R7", r7_item_collections, "item collections searched by find_child are sequences", floor=5),
+    RuleSpec("C11.R9", r9_memo, "no cached link element outlives the page it was made for (shared with C17.R7)", floor=1),
 ]
